@@ -179,7 +179,7 @@ def run_property(pid, tier, seed, module_name=None, post=None):
         rep = {'job': job.name, 'bound': job.bound, 'paths': agg.paths, 'decisions': agg.decisions, 'z3_queries': agg.z3,
                'obligations': agg.obligations, 'wall_s': round(dt, 1), 'outcomes': agg.outcomes,
                'status': 'complete' if not agg.incomplete else 'INCOMPLETE'}
-        if agg.count_unknown == 0 and agg.paths and not agg.incomplete and 'space' in job.params:
+        if agg.count_unknown == 0 and agg.paths and not agg.incomplete and job.params.get('space'):
             rep['partition_certificate'] = 'ok' if agg.count_sum == job.params['space'] else f"MISMATCH: leaves cover {agg.count_sum} of {job.params['space']} inputs"
             if agg.count_sum != job.params['space']:
                 inconclusive.append(f"{job.name}: path conditions do not partition the input space ({agg.count_sum} vs {job.params['space']})")
